@@ -281,6 +281,7 @@ def run(repo='/repo', tier='quick'):
                         'row "unparseable C-L" is scoped to messages without Transfer-Encoding (with T-E the C-L is ignored by design and the first sentence of the statement applies)']
     c11i(db, res)
     c11j(db, res)
+    c11k(db, res)
     return res
 
 
@@ -344,3 +345,21 @@ def c11j(db, res):
         res.check(ok, 'C11.j', name + ':name-trim-loop', 'name_end is moved back in a loop over trailing white space',
                   '%s no longer trims the field name in a loop: with two or more blanks before the colon the name keeps trailing white space and the lookups of Transfer-Encoding, Content-Length and Host miss the field - no smuggling / ambiguity indicator is raised' % name, f.loc)
     res.floor('C11.j', 'generic header parsers', n, 2)
+
+
+def c11k(db, res):
+    """The host of the request target is compared with the Host field after normalisation, and validated after it. Normalisation
+    lower-cases and drops trailing dots - nothing else: a normaliser that also drops (decoded) white space makes
+    "www.example.com%20" equal to the Host field and valid, so neither the invalid-host nor the ambiguity indicator is raised."""
+    res.rule('C11.k', 'hostname normalisation shortens the name only by trailing dots: in htp_normalize_hostname_inplace every bstr_chop / bstr_adjust_len is on the true edge of a test of the last byte against \'.\'')
+    f = db.get('htp_normalize_hostname_inplace')
+    n = 0
+    for b, i, c in f.calls():
+        if c.get('callee') not in ('bstr_chop', 'bstr_adjust_len', 'bstr_util_adjust_len'):
+            continue
+        n += 1
+        facts = [a for a, e in P.facts_at(f, b)]
+        ok = any(a[1] == '==' and a[2] in ('46', "'.'") for a in facts)
+        res.check(ok, 'C11.k', 'htp_normalize_hostname_inplace:%s' % c.get('callee'), 'under a test of the last byte against a dot',
+                  'htp_normalize_hostname_inplace shortens the hostname without having tested its last byte against a dot (guards: %s): bytes other than trailing dots vanish before the name is validated and compared with the Host field' % facts[-2:], c['loc'])
+    res.floor('C11.k', 'shortening calls in the hostname normaliser', n, 1)
